@@ -25,6 +25,12 @@ def run(ctx):
     ctx.transitions += st["generated"]
     ctx.extra["operational_model_conformance"] = {"layerings_compared": len(sub), "explained_exactly_by_Distributor.tla": len(sub) - len(drift),
                                                   "spec_drift": len(drift)}
+    msub = [r for r in recs if r.get("hasmetrics") == 1 and len(r["labels"]) <= 60][::(2 if quick else 1)]
+    mdrift, st2 = core.validate_records("MetricsDrift", "MetricsDrift.cfg", msub, per_shard=400, heap="3g")
+    ctx.states += st2["distinct"]
+    ctx.transitions += st2["generated"]
+    ctx.extra["metrics_conformance"] = {"layouts_compared": len(msub), "labella.metrics_equal_to_Metrics.tla": len(msub) - len(mdrift),
+                                        "spec_drift": len(mdrift)}
     if drift:
         import json
         ctx.notes.append("spec drift: %d layerings are not reproduced by the operational model (first: %s)"
